@@ -355,6 +355,10 @@ def _check_forwarding(F, R, f):
                             ini = strip_all(d.get("init")) if d.get("init") else None
                             if not (ini is not None and is_call(ini) and (ini.get("fn") or "").endswith("quiet_NaN")):
                                 ok, why = False, "error value of the wrapper is not NaN"
+        elif rv is not None and is_call(rv) and (rv.get("fn") or "").endswith("quiet_NaN") and \
+                not S.enclosing(r, ("CXXTryStmt",)) or (rv is not None and is_call(rv) and (rv.get("fn") or "").endswith("quiet_NaN")
+                                                       and S.enclosing(r, ("CXXCatchStmt",))):
+            continue         # the error value, returned after / inside the catch-all handler
         else:
             ok, why = False, "return value is not the forwarded call result"
     if not rets:
